@@ -97,6 +97,9 @@ func newStringEncoder() encoding2.EncodeCompiler[any, Value] {
 			return nil, errors.WithStack(encoding2.ErrUnsupportedType)
 		} else if typ.ConvertibleTo(typeTextMarshaler) {
 			return encoding2.EncodeFunc[any, Value](func(source any) (Value, error) {
+				if v := reflect.ValueOf(source); v.Kind() == reflect.Pointer && v.IsNil() {
+					return nil, nil
+				}
 				s := source.(encoding.TextMarshaler)
 				if s, err := s.MarshalText(); err != nil {
 					return nil, errors.Wrap(encoding2.ErrUnsupportedValue, err.Error())
